@@ -200,6 +200,10 @@ def build_job(ctx):
             calls.append(["gen", key])
             nontrivial.add(key)
     add("dt", gen_prog.module(max_items=3), ["doctrans"], max(2, n // 2))
+    # live objects (imported from a real file): the `inspect`-based path of the function / class parsers
+    add("lfn", fn_subset().map(lambda x: {"src": x["src"], "obj": "f"}), ["live_function"], n, nt=lambda x: True)
+    add("lfe", emitted("function", "executable", function_name="f", function_type="static").map(lambda x: dict(x, obj="f")), ["live_function"], max(2, n // 2), nt=lambda x: True)
+    add("lcl", emitted("class", "executable", class_name="K").map(lambda x: dict(x, obj="K")), ["live_class"], max(2, n // 2), nt=lambda x: True)
     add("pkg", pkg_init(), ["module_contents"], max(2, n // 3))
     # an unrelated call that leaks prepend-imports into cdd.compound.gen's globals (state named in the anchors)
     inputs["leak"] = {"src": inputs["gen0_class"]["src"], "emit": "class", "parse": "class", "infer": False, "prepend": "from collections import OrderedDict as K\nimport json as path\n"}
